@@ -459,4 +459,170 @@ regex reports at bytes 1..65537 is stored as 1..1 (the hypothesis `blen path < 6
 theorem witness_u16_truncation :
     collectSegments [(['a'], 1, 65537)] [['a']] = some [(['a'], 1, 1)] := by decide
 
+/-- **C10_chain**: a `Path` on which a prefix has already been matched (`skip > 0`, as in scope →
+resource routing) behaves exactly like a fresh `Path` holding the unprocessed rest: same verdict,
+and the new state is the old one plus the fresh result shifted by `skip` — for every path shorter
+than 64 KiB.  So all theorems above transfer to chained matching. -/
+theorem C10_chain (rd : ResourceDef) (st : PathState) (hlen : blen st.path < 65536)
+    (hskip : st.skip ≤ blen st.path) :
+    (rd.captureMatchInfo (fresh st.unprocessed) = .noMatch → rd.captureMatchInfo st = .noMatch) ∧
+    (∀ f, rd.captureMatchInfo (fresh st.unprocessed) = .matched f →
+      rd.captureMatchInfo st = .matched (shiftState st f) ∧ f.skip ≤ blen st.unprocessed) := by
+  have hu := unprocessed_blen st hskip
+  unfold ResourceDef.captureMatchInfo
+  cases hpt : rd.patType with
+  | «static» p =>
+    simp only [fresh_unprocessed]
+    cases hs : staticMatch rd.isPrefix p st.unprocessed with
+    | none => simp
+    | some len =>
+      obtain ⟨rest, hp, hn, _⟩ := (static_iff _ _ _ _).mp hs
+      have hle : len ≤ blen st.unprocessed := by rw [hn]; exact blen_le_of_append hp
+      have hnn : asU16 len = len := asU16_of_lt (by omega)
+      simp only
+      rw [commit_fresh _ len [] (by simp)]
+      refine ⟨fun h => (by cases h), ?_⟩
+      intro f hf
+      injection hf with hf
+      subst hf
+      exact ⟨commit_shift st _ len [] (by simp) (by omega), by simp only [hnn]; exact hle⟩
+  | dynamic d => exact captureDyn_shift d st hlen hskip
+  | dynamicSet ds =>
+    simp only [fresh_unprocessed]
+    cases hf : firstMatchIdx ds st.unprocessed with
+    | none => simp
+    | some i =>
+      simp only
+      cases hget : ds[i]? with
+      | none => simp
+      | some d => exact captureDyn_shift d st hlen hskip
+
+/-- **C10_offsets_u16**: below 64 KiB (which `http::Uri` guarantees) no `u16` offset is
+truncated and no `u16` addition overflows, at any depth of chained matching: the step never
+panics, the invariant `skip ≤ len < 65536` is preserved, and the new `skip` is the old one plus
+the exact (untruncated) length `find_match` reports on the rest. -/
+theorem C10_offsets_u16 (rd : ResourceDef) (st : PathState) (hlen : blen st.path < 65536)
+    (hskip : st.skip ≤ blen st.path) :
+    rd.captureMatchInfo st ≠ .panic ∧
+    ∀ st', rd.captureMatchInfo st = .matched st' →
+      st'.path = st.path ∧ st'.skip ≤ blen st'.path ∧
+      ∃ n, rd.findMatch st.unprocessed = some n ∧ st'.skip = st.skip + n := by
+  have hu := unprocessed_blen st hskip
+  obtain ⟨hno, hyes⟩ := C10_chain rd st hlen hskip
+  obtain ⟨hag, hnm, hfm⟩ := C10_three_agree rd st.unprocessed
+  cases hf : rd.findMatch st.unprocessed with
+  | none =>
+    have : rd.isMatch st.unprocessed = false := by rw [hag, hf]; rfl
+    have := hno (hnm.mpr this)
+    rw [this]
+    exact ⟨by simp, by intro st' h; cases h⟩
+  | some n =>
+    obtain ⟨segs, hcap⟩ := hfm n hf
+    obtain ⟨hst, hle⟩ := hyes _ hcap
+    rw [hst]
+    refine ⟨by simp, ?_⟩
+    intro st' h
+    injection h with h
+    subst h
+    simp only at hle
+    have hnle := findMatch_le rd _ n hf
+    have hnn : asU16 n = n := asU16_of_lt (by omega)
+    refine ⟨rfl, ?_, n, rfl, ?_⟩
+    · simp only [shiftState]; omega
+    · simp only [shiftState, hnn]
+
+/-- **C10_parse_wf**: every definition that `ResourceDef::new/prefix` builds (model of `parse` /
+`construct`) has pairwise distinct group names — the side condition of `C10_sound`. -/
+theorem C10_parse_wf (isPrefix : Bool) (pats : Patterns) (rd : ResourceDef)
+    (h : parsePattern isPrefix pats = .ok rd) : DefWF rd := by
+  have hall : ∀ (ps : List (List Char)) (ds : List (DynPat × List Seg)),
+      parseAll isPrefix ps = .ok ds → ∀ x ∈ ds, DynWF x.1 := by
+    intro ps
+    induction ps with
+    | nil => intro ds h; simp only [parseAll] at h; injection h with h; subst h; simp
+    | cons p ps ih =>
+      intro ds h
+      simp only [parseAll] at h
+      split at h
+      · cases h
+      · rename_i d segs hp
+        split at h
+        · cases h
+        · rename_i rest hr
+          injection h with h
+          subst h
+          intro x hx
+          rcases List.mem_cons.mp hx with rfl | hx
+          · rcases parse_ok hp with ⟨h1, _⟩ | ⟨d', h1, _, hw, _⟩
+            · cases h1
+            · injection h1 with h1; subst h1; exact hw
+          · exact ih rest hr x hx
+      · cases h
+  unfold DefWF
+  cases pats with
+  | single p =>
+    simp only [parsePattern] at h
+    split at h
+    · cases h
+    · rename_i pt segs hp
+      injection h with h
+      subst h
+      rcases parse_ok hp with ⟨h1, _⟩ | ⟨d, h1, _, hw, _⟩
+      · simp [h1]
+      · simp only [h1]; exact hw
+  | list ps =>
+    cases ps with
+    | nil =>
+      simp only [parsePattern] at h
+      injection h with h
+      subst h
+      simp
+    | cons p ps =>
+      simp only [parsePattern] at h
+      split at h
+      · cases h
+      · rename_i ds hd
+        injection h with h
+        subst h
+        simp only
+        intro d hd'
+        obtain ⟨x, hx, rfl⟩ := List.mem_map.mp hd'
+        exact hall _ ds hd x hx
+
+/-- **C10_prefix_boundary**: a single-pattern definition built by `parse` stops only at a segment
+boundary: after a successful capture, what is left of the path is empty or starts with `/`
+(prefix resources), or is empty (full resources) — unless the pattern has a tail segment, whose
+language is "everything". -/
+theorem C10_prefix_boundary (isPrefix : Bool) (p : List Char) (rd : ResourceDef)
+    (hp : parsePattern isPrefix (.single p) = .ok rd) (path : List Char) (hlen : blen path < 65536)
+    (st : PathState) (h : rd.captureMatchInfo (fresh path) = .matched st) :
+    ∃ m rest, path = m ++ rest ∧ blen m = st.skip ∧
+      ((∃ d, rd.patType = .dynamic d ∧ d.suffix = .open) ∨
+        (if isPrefix then (rest = [] ∨ ∃ t, rest = '/' :: t) else rest = [])) := by
+  have hwf := C10_parse_wf isPrefix _ rd hp
+  obtain ⟨vals, hm, _, _⟩ := C10_sound rd hwf path hlen st h
+  simp only [parsePattern] at hp
+  split at hp
+  · cases hp
+  · rename_i pt segs hparse
+    injection hp with hp
+    subst hp
+    unfold Matches at hm
+    rcases parse_ok hparse with ⟨h1, _⟩ | ⟨d, h1, _, _, _, hsfx⟩
+    · subst h1
+      simp only at hm
+      obtain ⟨rest, hpath, hn, _, hb⟩ := hm
+      exact ⟨p, rest, hpath, hn.symm, Or.inr hb⟩
+    · subst h1
+      simp only at hm
+      obtain ⟨m, rest, hpath, _, hs, hn⟩ := hm
+      refine ⟨m, rest, hpath, hn.symm, ?_⟩
+      rcases hsfx with ho | hs'
+      · exact Or.inl ⟨d, rfl, ho⟩
+      · right
+        rw [hs'] at hs
+        cases isPrefix with
+        | true => simpa [SuffixOk] using hs
+        | false => simpa [SuffixOk] using hs
+
 end ActixModel.C10
